@@ -160,6 +160,8 @@ pub enum Op {
     LruCap(u8),
     /// `trigger_lru_eviction()`
     LruTrig,
+    /// `set_lru_capacity(c)` on the struct-creating function `mk` (default capacity 64)
+    MkLruCap(u8),
     /// `trigger_cancellation()`
     Cancel,
     /// serialize + deserialize into a fresh database (persist config only)
